@@ -33,6 +33,7 @@ import (
 	protoReplicaV1 "github.com/lindb/lindb/proto/gen/v1/replica"
 	protoWriteV1 "github.com/lindb/lindb/proto/gen/v1/write"
 	"github.com/lindb/lindb/replica"
+	"github.com/lindb/lindb/rpc"
 	"github.com/lindb/lindb/series/metric"
 	"github.com/lindb/lindb/tsdb"
 
@@ -72,8 +73,14 @@ func (H) Gen(prop string, rng *rand.Rand, tier string) *core.Plan {
 			p.Ops = append(p.Ops, core.Op{K: "offline", A: []int64{1, 20, 500}[rng.Intn(3)]})
 		case r < 80:
 			p.Ops = append(p.Ops, core.Op{K: "gc"})
-		case r < 85:
+		case r < 82:
 			p.Ops = append(p.Ops, core.Op{K: "snap_l"})
+		case r < 85:
+			// the leader loses exactly the last k messages of its log, which the follower already has:
+			// catch up, image, k messages, catch up, restart from the image
+			k := int64([]int{1, 1, 2}[rng.Intn(3)])
+			p.Ops = append(p.Ops, core.Op{K: "wait", A: 50}, core.Op{K: "snap_l"},
+				core.Op{K: "put", A: k, B: int64(8 + rng.Intn(120))}, core.Op{K: "wait", A: 50}, core.Op{K: "restart_l", A: 2})
 		case r < 92:
 			p.Ops = append(p.Ops, core.Op{K: "restart_l", A: int64(rng.Intn(3))})
 		default:
@@ -169,6 +176,27 @@ func (cl *cluster) chance(kind string) bool {
 		return true
 	}
 	return false
+}
+
+// ---- follower log whose append can fail (disk full, I/O error) ------------------------------------
+
+type faultyLog struct {
+	queue.FanOutQueue
+	cl *cluster
+}
+
+func (l *faultyLog) Queue() queue.Queue { return &faultyQueue{Queue: l.FanOutQueue.Queue(), cl: l.cl} }
+
+type faultyQueue struct {
+	queue.Queue
+	cl *cluster
+}
+
+func (q *faultyQueue) Put(b []byte) error {
+	if q.cl.chance("follower-put-fails") {
+		return errors.New("injected: no space left on device")
+	}
+	return q.Queue.Put(b)
 }
 
 // state manager stub
@@ -566,6 +594,15 @@ func (H) Run(c *core.RunCtx) {
 	sim := c.Sim
 	cl := &cluster{c: c, sim: sim, nodes: map[int]*node{}, live: map[int]bool{leaderID: true, followerID: true}, watchers: map[int][]func(models.NodeStateType){},
 		appendedBy: map[int64]int{}, faultPM: c.Plan.C("fault_pm", 0), written: map[int64][]byte{}, lostFrom: 1 << 60, prevAck: -1}
+	// the follower's partition gets a log whose append may fail
+	replica.NewPartitionFn = func(ctx context.Context, shard tsdb.Shard, family tsdb.DataFamily, nodeID models.NodeID,
+		log queue.FanOutQueue, cliFct rpc.ClientStreamFactory, stateMgr storage.StateManager) replica.Partition {
+		if int(nodeID) == followerID {
+			log = &faultyLog{FanOutQueue: log, cl: cl}
+		}
+		return replica.NewPartition(ctx, shard, family, nodeID, log, cliFct, stateMgr)
+	}
+	defer func() { replica.NewPartitionFn = replica.NewPartition }()
 	if err := cl.startNode(followerID); err != nil {
 		c.Anomaly("start follower: %v", err)
 		return
